@@ -68,16 +68,19 @@ def isGuarded (name : String) : Bool :=
   (lookup Generated.StackGuard.callsBerCheckTags name && directlyGuarded "ber_check_tags")
 
 /-- the decoders through which a recursive type definition recurses (one per constructed kind and syntax),
-    plus the TLV skipper -/
+    plus the TLV skipper.  (There is no SET decoder for UPER / OER in this tree.) -/
 def recursingDecoders : List String := [
   "SEQUENCE_decode_ber", "SET_decode_ber", "CHOICE_decode_ber", "SET_OF_decode_ber", "ber_skip_length",
   "SEQUENCE_decode_uper", "CHOICE_decode_uper", "SET_OF_decode_uper",
   "SEQUENCE_decode_oer", "CHOICE_decode_oer", "SET_OF_decode_oer",
   "SEQUENCE_decode_xer", "SET_decode_xer", "CHOICE_decode_xer", "SET_OF_decode_xer"]
 
-/-- finding F13: the recursing decoders without a check on the unchanged tree -/
-def knownUnguarded : List String := [
+/-- finding F13 (repaired): the recursing decoders that had no check before the repair -/
+def formerlyUnguarded : List String := [
   "CHOICE_decode_oer", "SEQUENCE_decode_xer", "SET_decode_xer", "CHOICE_decode_xer", "SET_OF_decode_xer"]
+
+/-- the open-type readers of per_opentype.c, which called the check and discarded its verdict before the repair -/
+def formerlyDiscarding : List String := ["uper_open_type_get_simple", "uper_open_type_get_complex"]
 
 /-! ## 3. allocation ledger -/
 
@@ -273,7 +276,8 @@ structure OsResult where
 deriving Repr
 
 /-- the string decoder `OCTET_STRING_decode_uper` for unit width `u` bits, `bpc` bytes per character, no
-    alphabet translation: the `do { … } while(repeat)` loop.  `buf` = size of the block `st->buf` points
+    alphabet translation: the `do { … } while(repeat)` loop.  Characters of width 0 (single-character permitted
+    alphabet) are refused as soon as a length determinant announces a fragment (finding F71, repaired).  `buf` = size of the block `st->buf` points
     to (if any), `size` = `st->size`, `rounds` = length determinants read so far. -/
 def osUperLoop (bpc u : Nat) (eb : Option Nat) (lb : Nat) :
     Nat → Bits → Heap → (buf : Option Nat) → (size : Nat) → (rounds : Nat) → OsResult
@@ -283,6 +287,7 @@ def osUperLoop (bpc u : Nat) (eb : Option Nat) (lb : Nat) :
     | none => ⟨.more, bits, h, k⟩
     | some (rawLen, rep, bits1) =>
       if rawLen = 0 ∧ buf.isSome then ⟨.ok, bits1, h, k + 1⟩
+      else if u = 0 ∧ rep = true then ⟨.fail, bits1, h, k + 1⟩     -- `unit_bits == 0 && repeat`: zero-width characters, fragmented
       else
         let lenBytes := rawLen * bpc
         let h1 := match buf with
@@ -295,17 +300,18 @@ def osUperLoop (bpc u : Nat) (eb : Option Nat) (lb : Nat) :
           else ⟨.ok, bits2, h1, k + 1⟩
 
 /-- `OCTET_STRING_decode_uper`.  `csiz = none`: no PER-visible size constraint (`effective_bits = -1`);
-    `some (eb, lb, ub)`: `effective_bits = eb ≥ 0`, bounds `lb..ub`. -/
+    `some (eb, lb, ub)`: `effective_bits = eb ≥ 0`, bounds `lb..ub`.  Only a fixed size (`eb = 0`) is allocated
+    up front; a variable size is allocated when its length has been read (finding F70, repaired: the
+    `ub·bpc + 1` preallocation used to be made for every `eb ≥ 0` and was kept for empty strings). -/
 def osUper (ssz bpc u : Nat) (csiz : Option (Nat × Nat × Nat)) (bits : Bits) : OsResult :=
   let h0 := ({} : Heap).alloc ssz
   match csiz with
   | none => osUperLoop bpc u none 0 (bits.length + 1) bits h0 none 0 0
   | some (eb, lb, ub) =>
-    let pre := ub * bpc + 1                    -- MALLOC(st->size + 1) with st->size = upper_bound * bpc
-    let h1 := h0.alloc pre
     if eb = 0 then
+      let h1 := h0.alloc (ub * bpc + 1)        -- MALLOC(st->size + 1) with st->size = upper_bound * bpc
       if bits.length < u * ub then ⟨.more, bits, h1, 0⟩ else ⟨.ok, bits.drop (u * ub), h1, 0⟩
-    else osUperLoop bpc u (some eb) lb (bits.length + 1) bits h1 (some pre) 0 0
+    else osUperLoop bpc u (some eb) lb (bits.length + 1) bits h0 none 0 0
 
 /-! ## 6. OER collections -/
 
